@@ -27,16 +27,17 @@ type Obligation struct {
 }
 
 type Report struct {
-	Prop      string
-	ctx       *Ctx
-	Obls      []Obligation
-	Counts    map[string]int // free-form measured counters for the evidence file
-	Floors    map[string]int // rule -> minimum number of (non-control) instances
-	Explain   string
-	Assume    []string
-	Trusted   []string
-	Exhaust   bool
-	ctlExpect []ctlExpect
+	Prop         string
+	ctx          *Ctx
+	Obls         []Obligation
+	Counts       map[string]int // free-form measured counters for the evidence file
+	Floors       map[string]int // rule -> minimum number of (non-control) instances
+	Explain      string
+	Assume       []string
+	Trusted      []string
+	Exhaust      bool
+	ctlExpect    []ctlExpect
+	selfProblems []string
 }
 
 type ctlExpect struct{ rule, sub string }
@@ -127,6 +128,7 @@ func (r *Report) finish(tier string, seed int, start time.Time, cmdline string) 
 	if kerr != nil {
 		broken = append(broken, "known_findings.json unreadable: "+kerr.Error())
 	}
+	broken = append(broken, r.selfProblems...)
 	// controls
 	var real []Obligation
 	ctlFired := 0
